@@ -1212,6 +1212,22 @@ def sc_dcp(it, x, *a, **k):
         return copy.deepcopy(x)
     if isinstance(x, LArr):
         return x.snapshot()
+    if isinstance(x, (list, tuple, dict)):
+        # containers of (immutable) symbolic scalars: a fresh container of the same contents
+        def cp(v):
+            if isinstance(v, list):
+                return [cp(e) for e in v]
+            if isinstance(v, tuple):
+                return tuple(cp(e) for e in v)
+            if isinstance(v, dict):
+                return {k: cp(e) for k, e in v.items()}
+            if is_z3(v) or is_concrete(v):
+                return v
+            if isinstance(v, LArr):
+                return v.snapshot()
+            raise Unsupported("sc.dcp of a container holding %r" % (v,))
+
+        return cp(x)
     raise Unsupported("sc.dcp of symbolic object")
 
 
